@@ -19,7 +19,13 @@ pub fn run(a: &Args, prop: &str) -> i32 {
     let n_cases = if rep.thorough() { 300 } else { 40 };
     let payloads_per_op = if rep.thorough() { 40 } else { 12 };
     let corruptions_per_payload = if rep.thorough() { 60 } else { 25 };
-    let mut u = build_universe(&mut rep, &mut rng, &prop.to_lowercase(), n_cases, &SchemaKnobs::default(), &OpKnobs::default(), default_opts);
+    let corpus = if prop == "C01" { c01_corpus() } else { vec![] };
+    let n_corpus = corpus.len();
+    let mut corpus_opts = 0;
+    let mut u = build_universe_with(&mut rep, &mut rng, &prop.to_lowercase(), n_cases, &SchemaKnobs::default(), &OpKnobs::default(), |rng, s| {
+        corpus_opts += 1;
+        if corpus_opts <= n_corpus { vcore::common::Opts::harness() } else { default_opts(rng, s) }
+    }, corpus);
     let exe = match u.build.exe.clone() {
         Some(e) => e,
         None => {
@@ -90,10 +96,14 @@ pub fn run(a: &Args, prop: &str) -> i32 {
                 let got = drop_nulls(&canon_numbers(reser));
                 let want = v.expected.clone().unwrap_or(Value::Null);
                 if got != want {
-                    rep.fail("conforming-payload-not-preserved", case_json(json!({"expected_reserialization": want, "got": got})));
+                    let class = c01_finding_class(&c.schema, &c.doc).unwrap_or("conforming-payload-not-preserved");
+                    rep.fail(class, case_json(json!({"expected_reserialization": want, "got": got})));
                 }
             }
-            (None, Reply::Err(e)) => rep.fail("conforming-payload-rejected", case_json(json!({"error": e}))),
+            (None, Reply::Err(e)) => {
+                let class = c01_finding_class(&c.schema, &c.doc).unwrap_or("conforming-payload-rejected");
+                rep.fail(class, case_json(json!({"error": e})))
+            }
             (None, Reply::Other(o)) => rep.internal.push(format!("consumer reply: {}", o)),
             (Some(cor), r) => {
                 rep.count(&format!("corruption:{}", cor.kind.split('/').next().unwrap_or("")));
